@@ -38,3 +38,20 @@ Definition no_stuck (c : config) : Prop := forall t, t < length (threads c) -> t
 Definition all_closed_empty (c : config) : Prop :=
   forall q, q < length (queues c) ->
     qclosed (getq c q) = true /\ qvals (getq c q) = [] /\ qtok (getq c q) = 0.
+
+(* a deterministic complete schedule, for the examples: always the lowest (or highest) enabled thread *)
+Fixpoint complete_sched (hi : bool) (c : config) (fuel : nat) : list nat :=
+  match fuel with
+  | 0 => []
+  | S f =>
+    let ids := seq 0 (length (threads c)) in
+    match find (enabled c) (if hi then rev ids else ids) with
+    | None => []
+    | Some t => match step c t with Some c' => t :: complete_sched hi c' f | None => [] end
+    end
+  end.
+(* no thread can move *)
+Definition quiet_b (c : config) : bool :=
+  forallb (fun t => negb (enabled c t)) (seq 0 (length (threads c))).
+Definition told_closed_b (rs : list result) : bool :=
+  existsb (fun r => match r with RHead _ false => true | _ => false end) rs.
